@@ -19,6 +19,24 @@ C16CodecFails(c) ==
              (c.db_exc = "" /\ WFFails(c.db_back) = {} /\ SameUpToRenaming(ck, c.db_back))>>
        >>)
 
+(* kind "codecdeep": a circuit with one path of more than a thousand gates (c.order / c.dec_order: witness
+   orders, checked on the way).  The quadratic well-formedness clauses and the TLA+ decoder are left to the small
+   cases; here: no error other than a codec error, same counts, same function at every output. *)
+C16DeepFails(c) ==
+  IF c.enc_exc # ""
+  THEN FailSet(<< <<"encode-raised-a-non-codec-error:" \o c.enc_exc, c.enc_dberr>>,
+                  <<"in-format-circuit-rejected-by-encoder:" \o c.enc_exc, FALSE>> >>)
+  ELSE IF c.dec_exc # "" THEN {"decode-of-encoded-bytes-raised:" \o c.dec_exc}
+  ELSE LET all == AllRows(Len(c.c.i))
+           a == EvalChecked(AsFcn(c.c.g), c.order, InputCols(c.c), all)
+           b == EvalChecked(AsFcn(c.dec.g), c.dec_order, InputCols(c.dec), all)
+       IN FailSet(<<
+            <<"decoded-circuit-differs",
+                /\ Len(c.dec.i) = Len(c.c.i) /\ Len(c.dec.o) = Len(c.c.o)
+                /\ Cardinality(DOMAIN c.dec.g) = Cardinality(DOMAIN c.c.g)
+                /\ (~a.ok \/ (b.ok /\ \A k \in DOMAIN c.c.o : c.dec.o[k] \in DOMAIN b.v /\ b.v[c.dec.o[k]] = a.v[c.c.o[k]]))>>
+          >>)
+
 (* kind "bitio": c.items = Seq of [bits (LSB first), w]; c.back = Seq of bit lists read back *)
 C16BitIOFails(c) ==
   FailSet(<<
